@@ -143,7 +143,15 @@ def Z4T(n=2, buf=1, mx=2):     # fan-in of two task-producing upstreams into one
                 procs=[src("s1", items(n, "a")), src("s2", items(n, "b")), cmd("m1", ["in"]), cmd("m2", ["in"]), cmd("n", ["x"])],
                 edges=[E("s1.out", "m1.in"), E("s2.out", "m2.in"), E("m1.out", "n.x"), e2], ctl={"m2.sleep": "0.25"})
 
-ZOO = dict(Z20=Z20, Z4T=Z4T, Z21=Z21, PC3=PC3, PC2S=PC2S, FC2=FC2, FCS=FCS, Z17=Z17, Z18=Z18, Z19=Z19, Z5c=Z5c, Z1=Z1, Z2=Z2, Z3=Z3, Z4=Z4, Z5=Z5, Z6=Z6, Z7=Z7, Z8=Z8, Z9=Z9, Z10=Z10, Z13=Z13, Z14=Z14,
+def ZCAT(n=3, buf=2, mx=2, two=False):     # a Concatenator between tasks: collects everything (one or two upstreams), then hands ONE file on
+    procs = [src("s", items(n)), cmd("a", ["in"]), dict(name="cc", kind="concat", arg="o/all.txt"), cmd("b", ["in"])]
+    edges = [E("s.out", "a.in"), E("a.out", "cc.in"), E("cc.out", "b.in")]
+    if two:
+        procs += [src("s2", items(2, "b")), cmd("a2", ["in"])]
+        edges += [E("s2.out", "a2.in"), E("a2.out", "cc.in")]
+    return dict(name="ZCAT", max=mx, bufsize=buf, procs=procs, edges=edges)
+
+ZOO = dict(ZCAT=ZCAT, Z20=Z20, Z4T=Z4T, Z21=Z21, PC3=PC3, PC2S=PC2S, FC2=FC2, FCS=FCS, Z17=Z17, Z18=Z18, Z19=Z19, Z5c=Z5c, Z1=Z1, Z2=Z2, Z3=Z3, Z4=Z4, Z5=Z5, Z6=Z6, Z7=Z7, Z8=Z8, Z9=Z9, Z10=Z10, Z13=Z13, Z14=Z14,
            Z15=Z15, Z16=Z16, Z5b=Z5b)
 
 # ----------------------------------------------------------------------------
